@@ -613,12 +613,12 @@ func (t *Template) Data(recv string, groupLabels, routeLabels model.LabelSet, no
 				break
 			}
 			for ln, lv := range commonLabels {
-				if a.Labels[ln] != lv {
+				if v, ok := a.Labels[ln]; !ok || v != lv {
 					delete(commonLabels, ln)
 				}
 			}
 			for an, av := range commonAnnotations {
-				if a.Annotations[an] != av {
+				if v, ok := a.Annotations[an]; !ok || v != av {
 					delete(commonAnnotations, an)
 				}
 			}
